@@ -709,3 +709,87 @@ def stage_spaces(batch):
     """`str.isspace` over every code point against `CliArgs.pyIsSpace` (what `str.strip()` removes)"""
     ans = impl_call(lambda: [c for c in range(0x110000) if chr(c).isspace()])
     batch.add({"op": "spaces", "limit": 0x110000}, ans, {"table": "str.isspace"})
+
+
+class _Boom(Exception):
+    pass
+
+
+def _ctx_run_body(body, probe, other, reads):
+    """execute a Body on the real AbsoluteModelRef: reads are observed through the text of a reference to `probe`"""
+    from json_to_models.dynamic_typing import AbsoluteModelRef
+    tag = body[0]
+    if tag == "read":
+        _, text = AbsoluteModelRef(probe).to_typing_code({})
+        inner = text.strip("'")
+        reads.append(inner[:-len(probe.name) - 1] if inner.endswith("." + probe.name) else "")
+    elif tag == "raise":
+        raise _Boom()
+    elif tag == "seq":
+        _ctx_run_body(body[1], probe, other, reads)
+        _ctx_run_body(body[2], probe, other, reads)
+    elif tag == "inject":
+        mapping = {(probe if k == "P" else other): v for k, v in body[1]}
+        with AbsoluteModelRef.inject(mapping):
+            _ctx_run_body(body[2], probe, other, reads)
+    else:
+        raise ValueError(tag)
+
+
+def gen_ctx_body(rng, depth=3):
+    r = rng.random()
+    if depth <= 0 or r < 0.3:
+        return ["read"] if rng.random() < 0.8 else ["raise"]
+    if r < 0.6:
+        return ["seq", gen_ctx_body(rng, depth - 1), gen_ctx_body(rng, depth - 1)]
+    patches = rng.choice([[], [["P", rng.choice(["Root", "Outer", "A"])]], [["Q", "X"]], [["P", "B"], ["Q", "Y"]]])
+    return ["inject", patches, gen_ctx_body(rng, depth - 1)]
+
+
+def stage_ctxexec(batch, schedule):
+    """nested `with AbsoluteModelRef.inject(...)` blocks, reads and exceptions, run in the main thread (0) and in two
+    long-lived worker threads (1, 2) one after the other, against `Runtime.exec`: what every read shows and what each
+    thread's context is afterwards"""
+    import queue
+    import threading
+    from json_to_models.dynamic_typing import ModelMeta
+
+    def run():
+        probe, other = ModelMeta({"a": int}, "9P"), ModelMeta({"b": int}, "9Q")
+        probe.name, other.name = "Probe", "Other"
+        inbox = {t: queue.Queue() for t in (1, 2)}
+        outbox = queue.Queue()
+
+        def one(body):
+            reads = []
+            try:
+                _ctx_run_body(body, probe, other, reads)
+                return {"ok": True, "reads": reads}
+            except _Boom:
+                return {"ok": False, "reads": reads}
+
+        def worker(t):
+            while True:
+                body = inbox[t].get()
+                if body is None:
+                    return
+                outbox.put(one(body))
+
+        ths = {t: threading.Thread(target=worker, args=(t,), daemon=True) for t in (1, 2)}
+        for th in ths.values():
+            th.start()
+        items = []
+        for t, body in schedule + [[t, ["read"]] for t in (0, 1, 2)]:
+            if t == 0:
+                items.append(one(body))
+            else:
+                inbox[t].put(body)
+                items.append(outbox.get(timeout=60))
+        for t in (1, 2):
+            inbox[t].put(None)
+        final = [it["reads"][0] for it in items[-3:]]
+        return {"items": items[:-3], "final": final}
+
+    ans = impl_call(run)
+    batch.add({"op": "ctxexec", "threads": [0, 1, 2], "schedule": schedule}, ans, {"schedule": schedule})
+    return ans
